@@ -37,12 +37,54 @@ MODULES = ["treewalkers/base.py", "treewalkers/etree.py", "treewalkers/dom.py", 
 CORE_KINDS = ["Doctype", "Characters", "SpaceCharacters", "StartTag", "EndTag", "EmptyTag", "Comment"]
 
 
+def _dom_details_whole(ctx, f, rel, qual):
+    """getNodeDetails of the DOM walker run as a whole (sa/classeval.py) on a model of a minidom element: attributes as minidom
+    stores them -- one set through setAttributeNS (namespace, prefix:local), two through setAttribute (no namespace; for a
+    name with a colon minidom's localName is the part after it).  The attribute dict of the details must hold
+    (namespace, local name) for the first and (None, *whole* name) for the others.  -> True (decided) / None (not evaluable)."""
+    from ..classeval import ClassEval, Record
+    r = ctx.r
+    XL = "http://www.w3.org/1999/xlink"
+    attrs = [Record(namespaceURI=XL, localName="href", name="xlink:href", nodeName="xlink:href", value="v1", nodeValue="v1", prefix="xlink"),
+             Record(namespaceURI=None, localName="lang", name="xml:lang", nodeName="xml:lang", value="v2", nodeValue="v2", prefix=None),
+             Record(namespaceURI=None, localName="title", name="title", nodeName="title", value="v3", nodeValue="v3", prefix=None)]
+    by_name = {a.name: a for a in attrs}
+    amap = Record(keys=lambda: [a.name for a in attrs], values=lambda: list(attrs), items=lambda: [(a.name, a.value) for a in attrs],
+                  itemsNS=lambda: [((a.namespaceURI, a.localName), a.value) for a in attrs], keysNS=lambda: [(a.namespaceURI, a.localName) for a in attrs],
+                  length=len(attrs), item=lambda i: attrs[i] if 0 <= i < len(attrs) else None,
+                  get=lambda k, d=None: by_name[k].value if k in by_name else d)
+    import xml.dom
+    node = Record(nodeType=xml.dom.Node.ELEMENT_NODE, namespaceURI="http://www.w3.org/1999/xhtml", nodeName="p", tagName="p", localName="p", prefix=None,
+                  attributes=amap, getAttributeNode=lambda n: by_name.get(n), getAttribute=lambda n: by_name[n].value if n in by_name else "",
+                  getAttributeNodeNS=lambda ns, ln: next((a for a in attrs if a.namespaceURI == ns and a.localName == ln), None),
+                  hasChildNodes=lambda: False, hasAttributes=lambda: True, childNodes=[])
+    try:
+        got = ClassEval(ctx.ce, f.module, f.cls, {}, repo=ctx.repo).call(f.name, [node])
+    except AnalysisError as e:
+        ctx.r.note("C11: DOM getNodeDetails not evaluable as a whole (%s)" % str(e)[:100])
+        return None
+    if not (isinstance(got, tuple) and len(got) == 5 and isinstance(got[3], dict)):
+        return None
+    want = {(XL, "href"): "v1", (None, "xml:lang"): "v2", (None, "title"): "v3"}
+    r.check("R11.3", got[3] == want, "%s::attribute-keys" % rel, f.where,
+            "%s reports the attributes {(xlink namespace) xlink:href, xml:lang, title} of a minidom element as %s; the tree holds %s: an "
+            "attribute without namespace whose name contains a colon (xml:lang on an HTML element, v-bind:title) keeps its whole name, a "
+            "namespaced one is keyed by (namespace, local name) -- otherwise the stream no longer reproduces the tree and differs from the "
+            "other walker's" % (qual, sorted(got[3], key=repr), sorted(want, key=repr)), detail={"evaluated": "whole function on a minidom model"})
+    r.check("R11.3", got[2] == "p" and got[1] == "http://www.w3.org/1999/xhtml" and got[4] is False, "%s::element-details" % rel, f.where,
+            "%s reports (namespace, name, hasChildren) of <p> as %r" % (qual, (got[1], got[2], got[4])))
+    return True
+
+
 def _dom_attribute_keys_evaluated(ctx, f, rel, qual) -> bool:
     """R11.3 attribute-keys, DOM walker, by evaluation: the loop that fills the attribute dict is run on three representative
     minidom attribute nodes -- (namespace, local name, qualified name) -- and must produce the key the tree builder stored the
     attribute under: (namespace, local name) for a namespaced attribute, (None, *whole* name) for one without namespace."""
     from ..partition import MiniInterp, Opaque
     r = ctx.r
+    whole = _dom_details_whole(ctx, f, rel, qual)
+    if whole is not None:
+        return whole
     loop = next((n for n in ast.walk(f.node) if isinstance(n, ast.For) and any(
         isinstance(a, ast.Assign) and isinstance(a.targets[0], ast.Subscript) and isinstance(a.targets[0].value, ast.Name) for a in ast.walk(n))), None)
     if loop is None:
@@ -279,18 +321,15 @@ def run(ctx):
     import itertools
     samples = ["".join(p) for n_ in range(0, 5) for p in itertools.product(" \x0ba", repeat=n_)]
     samples += ["\t", "\n", "\x0c", "\r", "\r\n\x0c x\t", "\u00a0a\u2003", "\x1c a \x85"]
+    from ..classeval import ClassEval
+    n_eval = 0
     for smp in samples:
-        out_tokens = []
-
-        def stmt_hook(st, out, interp, out_tokens=out_tokens):
-            if isinstance(st, ast.Expr) and isinstance(st.value, ast.Yield) and st.value.value is not None:
-                out_tokens.append(interp.eval_expr(st.value.value, out.env))
-                return False
-            return NotImplemented
-        ti = MiniInterp(ce, base, stmt_hook=stmt_hook)
         key = "text[%r]" % smp
         try:
-            ti.run(tx.node.body, {dparam: smp, "self": Opaque("self")})
+            evl = ClassEval(ce, base, tx.cls, {}, repo=repo)
+            evl.call("text", [smp])
+            out_tokens = evl.yielded
+            n_eval += 1
         except Exception as e:      # noqa: BLE001 -- not evaluable: no verdict
             r.idiom("R11.5", False, key, tx.where, "text() is not evaluable on %r (%s)" % (smp, str(e)[:80]))
             continue
@@ -302,8 +341,14 @@ def run(ctx):
         r.check("R11.5", out_tokens == exp, key, tx.where,
                 "text(%r) yields %s; expected leading HTML white space, text, trailing HTML white space as non-empty tokens: %s"
                 % (smp, out_tokens, exp), detail={"input": smp, "tokens": out_tokens})
-    sc = ce.const("treewalkers/base.py", "spaceCharacters")
-    r.check("R11.5", set(sc) == set("\t\n\x0c\r "), "space-set", "treewalkers/base.py", "walker white space is %r" % sc)
+    try:
+        sc = ce.const("treewalkers/base.py", "spaceCharacters")
+    except AnalysisError:
+        sc = None          # no such table (any more): the evaluation above is the verdict
+        if n_eval < len(samples):
+            raise
+    if sc is not None:
+        r.check("R11.5", set(sc) == set("\t\n\x0c\r "), "space-set", "treewalkers/base.py", "walker white space is %r" % sc)
     clark_names(ctx)
     void_agreement(ctx)
     from . import wslint
